@@ -6,6 +6,15 @@ import RtoscModel.Ring.Seq
 namespace Rtosc.Ring
 open Rtosc
 
+/-- What the ThreadLink theorems need to know about message framing
+    (`rtosc_message_ring_length` applied to the ring view): the result never exceeds the
+    view, and an accepted message is recognised with its own length whatever follows it
+    (C01 proves this of the real function for encoded OSC messages: `ringLength_encode`). -/
+structure Framing (frame : Bytes → Nat) (IsMsg : Bytes → Prop) : Prop where
+  le : ∀ v, frame v ≤ v.length
+  msg : ∀ m rest, IsMsg m → frame (m ++ rest) = m.length
+  ne : ∀ m, IsMsg m → m ≠ []
+
 structure Q where
   cap : Nat               -- bytes that may be queued at once (ring size - 1)
   maxMsg : Nat
